@@ -177,7 +177,23 @@ func solveAll(obls []*Obligation, timeoutS int, seed int, confirm bool, par int)
 			if o.Expect == "notunsat" {
 				t = 2
 			}
-			out[i] = solved{o, runSolvers(o.query(false), t, seed, confirm, nil)}
+			r := runSolvers(o.query(false), t, seed, confirm, nil)
+			if r.Status != "unsat" && o.Expect == "" && len(o.Cases) > 1 {
+				all := true
+				var last SolverResult
+				for _, c := range o.Cases {
+					last = runSolvers(o.caseQuery(c), t, seed, confirm, nil)
+					if last.Status != "unsat" {
+						all = false
+						break
+					}
+				}
+				if all {
+					r = last
+					r.Solver += "+cases"
+				}
+			}
+			out[i] = solved{o, r}
 		}(i, o)
 	}
 	wg.Wait()
@@ -227,6 +243,9 @@ func cmdFunc(args []string) int {
 					rc = 1
 				}
 				fmt.Printf("  %s %-70s %-8s %-7s %.2fs %v\n", mark, s.o.Name, s.res.Status, s.res.Solver, s.res.Seconds, s.res.All)
+				if !ok && len(s.o.Goal) < 600 {
+					fmt.Println("       goal:", s.o.Goal)
+				}
 				if s.res.Status == "error" {
 					fmt.Println("      ", strings.SplitN(s.res.Output, "\n", 3)[0:2])
 				}
@@ -248,4 +267,3 @@ func ptrTo(t interface{ String() string }) *gotypes.Pointer {
 	return gotypes.NewPointer(t.(gotypes.Type))
 }
 
-func cmdCheck(args []string) int { return 2 }
